@@ -253,7 +253,7 @@ def tlc(module, cfg, scratch, workers=None, env=None, timeout=900, simulate=None
     if deque:
         jopts.append("-Dtlc2.tool.queue.IStateQueue=StateDeque")
     # (outer `timeout`: a TLC whose parent was killed must not live on)
-    cmd = ["timeout", "-k", "5", str(int(timeout) + 60), "java"] + jopts + ["-cp", TLC_JAR, "tlc2.TLC", "-workers", str(workers),
+    cmd = ["timeout", "-k", "5", str(int(timeout)), "java"] + jopts + ["-cp", TLC_JAR, "tlc2.TLC", "-workers", str(workers),
                               "-metadir", meta, "-config", cfg, "-noGenerateSpecTE"]
     if simulate:
         cmd += ["-simulate", simulate]
@@ -272,8 +272,10 @@ def tlc(module, cfg, scratch, workers=None, env=None, timeout=900, simulate=None
     timed_out = False
     try:
         p = subprocess.run(cmd, cwd=SPEC, env=e, stdout=subprocess.PIPE,
-                           stderr=subprocess.STDOUT, text=True, timeout=timeout)
+                           stderr=subprocess.STDOUT, text=True, timeout=timeout + 120)
         out, rc = p.stdout, p.returncode
+        if rc in (124, 137) and time.time() - t0 >= timeout - 1:
+            rc, timed_out = -9, True       # ended by the outer `timeout`
     except subprocess.TimeoutExpired as ex:
         out = ex.stdout.decode() if isinstance(ex.stdout, bytes) else (ex.stdout or "")
         rc, timed_out = -9, True
